@@ -17,7 +17,10 @@ One machine per task (control state, stack of entered blocks, inherited group, c
 shared heap (groups, gates).  Labels are the harness-visible events of `harness/scopeprog.py` plus three silent
 library-internal steps (`reap`, `deliver`, `silentEnd`) whose position between visible events is chosen by the
 event loop.  User code is unconstrained: `raise`, `caught`, `spawn`, `await`, … are enabled wherever Python allows
-them; theorems quantify over every label sequence. Core Lean only. -/
+them; theorems quantify over every label sequence.  Deliberate over-approximation (M1): a cancellation pending on a task
+may also be delivered at a suspension point of `__aenter__` before anything is entered (`enterfail`) or of `__aexit__`
+after the group has finished (second way of enabling `left … cancelled`); the pinned code has no such suspension points,
+a harmless extra `await` there must not break the correspondence. Core Lean only. -/
 namespace Haiway.Groups
 
 inductive Outcome where
